@@ -198,7 +198,8 @@ def gen_inputs16(rng, args, n, meta=None):
                 size = 1
                 for d in shape:
                     size *= d
-                row.append(["memref", shape, [rng.choice([0, 1, 2, 5, 0xFFFFFFFF, rng.getrandbits(32)]) for _ in range(size)]])
+                row.append(["memref", shape, [rng.getrandbits(32) if rng.random() < 0.7 else rng.choice([0, 1, 2, 5, 0xFFFFFFFF])
+                                              for _ in range(size)]])
                 continue
             w = W[t]
             mask = (1 << w) - 1
@@ -488,8 +489,9 @@ def _aexpr(rng, terms, depth=0):
 
 def gen_lower_affine(rng):
     pb = PB(rng, floats=rng.random() < 0.3)
-    two_d = rng.random() < 0.4
-    mt = "memref<4x4xi32>" if two_d else "memref<8xi32>"
+    two_d = rng.random() < 0.65
+    shape2 = rng.choice([[4, 4], [3, 5], [5, 2], [2, 6], [4, 4], [6, 3]])  # square and non-square buffers
+    mt = f"memref<{shape2[0]}x{shape2[1]}xi32>" if two_d else "memref<8xi32>"
     args = [["%m", mt, "mem"], ["%p", "index", "sidx"], ["%q", "index", "sidx"], ["%x", "i32", "data"],
             ["%n", "index", "bound"]]
     env = [(a, t) for a, t, _ in args if not t.startswith("memref")]
@@ -524,9 +526,50 @@ def gen_lower_affine(rng):
             return f"({d} ceildiv 3) mod {size}"
         return d  # may be out of bounds -> source undefined for such inputs
 
+    def bounded(ind, pool, k):
+        """an index value in [0, k): a constant or `x remui k` of any index value (in bounds by construction)"""
+        if rng.random() < 0.3 or not pool:
+            return pb.const(ind, rng.randrange(k))
+        c = pb.const(ind, k)
+        v = pb.fresh("b")
+        pb.emit(ind, f"{v} = arith.remui {rng.choice(pool)}, {c} : index")
+        return v
+
+    def access_dimonly(env, ind, ivs, store):
+        """affine.load / affine.store whose map consists of bare dimensions only, mostly NOT the identity:
+        permutations `(d0, d1) -> (d1, d0)`, repeated dims `(d0, d1) -> (d0, d0)`, projections out of three dims.
+        Every operand is bounded so that the access is in bounds for the map as written (also on non-square
+        buffers), and operands that the map does not use are made different from the used ones."""
+        sizes = shape2
+        nd = rng.choice([2, 2, 2, 3])
+        r = rng.random()
+        if nd == 2:
+            perm = [1, 0] if r < 0.45 else [0, 0] if r < 0.65 else [1, 1] if r < 0.85 else [0, 1]
+        else:
+            perm = [rng.randrange(3), rng.randrange(3)]
+        pool = list(ivs) + ["%p", "%q", "%n"]
+        ops = []
+        for d in range(nd):
+            lim = [sizes[pos] for pos in range(2) if perm[pos] == d]
+            # an unused dim may be anything below 7 (out of bounds if it were wrongly used on a small buffer)
+            ops.append(bounded(ind, pool, min(lim) if lim else 7))
+        m = _amap(nd, 0, [f"d{k}" for k in perm])
+        tys = ", ".join([mt] + ["index"] * nd)
+        st["sites"] += 1
+        if store:
+            val = pb.pick(env, "i32", ind)
+            pb.emit(ind, f'"affine.store"({val}, {", ".join(["%m"] + ops)}) <{{map = {m}}}> : (i32, {tys}) -> ()')
+        else:
+            v = pb.fresh("ld")
+            pb.emit(ind, f'{v} = "affine.load"({", ".join(["%m"] + ops)}) <{{map = {m}}}> : ({tys}) -> i32')
+            env.append((v, "i32"))
+            pb.emit(ind, f'"test.op"({v}) : (i32) -> ()')
+
     def access(env, ind, ivs, store):
         """affine.load / affine.store on %m with maps over induction variables (or constants)"""
-        sizes = [4, 4] if two_d else [8]
+        if two_d and rng.random() < 0.45:
+            return access_dimonly(env, ind, ivs, store)
+        sizes = shape2 if two_d else [8]
         if not ivs or rng.random() < 0.15:
             res = [str(rng.randrange(s)) for s in sizes]
             ops, nd = [], 0
@@ -1115,9 +1158,33 @@ def gen_desymrefy(rng):
     env = env_of(args)
     st = {"sym": 0, "nested": False}
 
+    ext_syms = [(f"g{k}", rng.choice(["i32", "index"])) for k in range(rng.choice([0, 0, 1, 1, 2]))]
+
+    def ext_block(env, ind):
+        """read-write-read(-write) interleavings on ONE symbol that no block of the module declares (it belongs to
+        an enclosing scope): every later read must see the closest preceding write; all reads are observable."""
+        name, t = rng.choice(ext_syms)
+        for k in range(rng.randint(3, 6)):
+            if k % 2 == 0 or rng.random() < 0.3:
+                v = pb.fresh("f")
+                pb.emit(ind, f"{v} = symref.fetch @{name} : {t}")
+                env.append((v, t))
+                pb.emit(ind, f'"test.op"({v}) : ({t}) -> ()')
+            else:
+                c = pb.const(ind, rng.randint(1, 99), t)
+                nv = pb.fresh("t")
+                src = [x for x, tt in env if tt == t]
+                pb.emit(ind, f"{nv} = arith.addi {rng.choice(src)}, {c} : {t}")
+                env.append((nv, t))
+                pb.emit(ind, f"symref.update @{name} = {nv} : {t}")
+            if rng.random() < 0.3:
+                pb.filler(env, ind, 1, depth=2)
+
     def block(env, ind, depth, outer_syms):
         """straight-line symref code; `outer_syms` = symbols declared in enclosing blocks (using them here is the
         nested-use shape the pass does not promote)."""
+        if ext_syms and rng.random() < (0.8 if depth == 0 else 0.5):
+            ext_block(env, ind)
         syms = []
         for _ in range(rng.randint(1, 3) if depth == 0 else rng.randint(0, 2)):
             st["sym"] += 1
